@@ -56,6 +56,7 @@ type census struct {
 	FDs     map[string]int `json:"fds"`
 	CPUms   int64          `json:"cpu_ms_2s_window"`
 	Handles int            `json:"handles"`
+	Files   []string       `json:"open_files,omitempty"` // the file:other descriptors, by path
 }
 
 func cpuMs() int64 {
@@ -82,6 +83,7 @@ func takeCensus(window bool) census {
 			} else if strings.Contains(k, "/proc/") {
 				continue
 			} else {
+				c.Files = append(c.Files, strings.TrimPrefix(k, lab.WorkDir()))
 				k = "file:other"
 			}
 		}
@@ -298,7 +300,7 @@ func (prop) Judge(b core.Batch, recs []core.Rec, exits []core.Exit) []core.Resul
 			for kind, n2 := range f2 {
 				if f1[kind] > 0 && n2 > f1[kind] {
 					out = append(out, core.Result{K: 0, Verdict: core.Violated, Sig: "C09|" + svc + "|descriptor-leak|" + kind,
-						What: fmt.Sprintf("%d extra %s descriptors after %d connections and %d after %d", f1[kind], kind, ob.N, n2, 2*ob.N), Witness: map[string]interface{}{"c0": ob.C0.FDs, "c1": ob.C1.FDs, "c2": ob.C2.FDs}})
+						What: fmt.Sprintf("%d extra %s descriptors after %d connections and %d after %d", f1[kind], kind, ob.N, n2, 2*ob.N), Witness: map[string]interface{}{"c0": ob.C0.FDs, "c1": ob.C1.FDs, "c2": ob.C2.FDs, "open_files_baseline": ob.C0.Files, "open_files_after_2N": ob.C2.Files}})
 				}
 			}
 			if ob.C1.CPUms > 1000 && ob.C2.CPUms > 1000 {
